@@ -246,6 +246,37 @@ theorem commit_latest (w : World) (s : Sid) (p : Nat) (h : (w.vols p).own = some
     ((w.commitTx s).vols p).com = (w.vols p).latest := by
   simp [World.commitTx, Row.commit, h]
 
+/-- The explicit, decidable hypothesis of the partial theorem: pair `p` of the `GetBalances ps` that
+    session `s` is about to run (or to resume) is in the statement's snapshot — its `accounts_volumes`
+    row was committed (or written earlier by the same transaction) when the statement was FIRST issued —
+    and still has a version. -/
+def CommittedWhenIssued (w : World) (s : Sid) (ps : List Nat) (p : Nat) : Bool :=
+  sees w (snapOf w s ps) p
+
+/-- the step in which `GetBalances` completes: for such a pair the session reads the latest version
+    under lock -/
+theorem getBalances_step_reads (w : World) (s : Sid) (ps : List Nat) (k : Out → Prog) (w' : World) (o : Out) (p : Nat)
+    (hp : (w.sess s).prog = .stmt (.getBalances ps) k) (hab : (w.sess s).aborted = false)
+    (he : getBal w s ps (snapOf w s ps) = .done w' o) (hmem : p ∈ ps) (hc : CommittedWhenIssued w s ps p = true) :
+    (step w s).reads s p = some (((w.vols p).latest).getD 0) ∧ ((step w s).vols p).own = some s := by
+  have hstep : (step w s).reads = w'.reads ∧ (step w s).vols = w'.vols := by
+    unfold step stepR
+    simp [hp, hab, exec, he, advance]
+  rw [hstep.1, hstep.2]
+  unfold getBal at he
+  split at he
+  · cases he
+  · split at he
+    · cases he
+    · injection he with hw _
+      subst hw
+      have hps : ps.contains p = true := by simpa using hmem
+      unfold CommittedWhenIssued at hc
+      constructor
+      · simp [hmem, hc]
+      · simp only [hps, if_true, hc]
+        split <;> rfl
+
 /-! ## `lock_excludes` for rows: no step of another session changes a row that `s` owns -/
 
 def RowIs (p : Nat) (r : Row Int) (w : World) : Prop := w.vols p = r
